@@ -189,6 +189,7 @@ theorem good_update {c : Cfg} {s s' : State} (h : simple c s .update = some (.ok
     | list _ _ => simp at h
     | left _ _ => simp at h
     | right _ _ => simp at h
+    | lam _ _ _ => simp at h
 
 theorem good_mem {c : Cfg} {s s' : State} (h : simple c s .mem = some (.ok s')) : Good s s' := by
   simp only [simple, Option.some.injEq] at h
@@ -226,6 +227,7 @@ theorem good_mem {c : Cfg} {s s' : State} (h : simple c s .mem = some (.ok s')) 
     | list _ _ => simp at h
     | left _ _ => simp at h
     | right _ _ => simp at h
+    | lam _ _ _ => simp at h
 
 /-- every instruction handled by `simple` is a `Good` step -/
 theorem simple_good {c : Cfg} (ok : CfgOk c) {s s' : State} (i : Instr) (h : simple c s i = some (.ok s')) : Good s s' := by
@@ -254,6 +256,9 @@ theorem simple_good {c : Cfg} (ok : CfgOk c) {s s' : State} (i : Instr) (h : sim
   | right t => exact good_right t h
   | emptySet t => exact good_emptySet t h
   | mem => exact good_mem h
+  | lambda a b body => exact good_lambda a b body h
+  | apply => exact good_apply h
+  | exec => simp [simple] at h
   | ifLeft _ _ => simp [simple] at h
   | failwith => simp [simple] at h
   | ifNone _ _ => simp [simple] at h
